@@ -645,10 +645,19 @@ namespace sim
                     Log l2;
                     Outcome o2 = h.execute(plan2, l2);
                     det = (l2.h == l.h) && o2.has(cls);
+                    if (!det && h.real_clock_class(cls) && !o2.has(cls))
+                    {
+                        // the one kind of verdict that reads a real clock (a CPU-time backstop): a genuine stall is a function of the plan and shows again;
+                        // one that does not was the host (VM pause, steal time) charging time to the call. Counted, not reported.
+                        ++artifacts[cls];
+                        if (--per_class[cls] == 0)
+                            per_class.erase(cls);
+                        continue;
+                    }
                     if (!det)
                         ++nondeterministic;
                     crash_state().phase = 3;
-                    small = det ? shrink(h, plan, cls, execs, h.shrink_budget()) : plan;
+                    small = det ? shrink(h, plan, cls, execs, h.real_clock_class(cls) ? std::min<uint64_t>(h.shrink_budget(), 48) : h.shrink_budget()) : plan; // a real-clock verdict costs real time per execution
                     crash_state().phase = 0;
                     poisoned = shrink_guard().crashed != 0;
                     if (!poisoned)
@@ -898,6 +907,7 @@ namespace sim
         bool pristine_confirmation() const { return false; } // confirm/shrink/report violation candidates in pristine processes (see Zygote)
         template <class P>
         bool spans_several_lifetimes(const P&) const { return false; }
+        bool real_clock_class(const std::string&) const { return false; } // verdict classes that come from a real-time backstop rather than a simulated clock
         template <class W>
         bool custom_command(const Args&, W&) { return false; }
     };
